@@ -1,4 +1,4 @@
-import CV.Proofs.CatModels
+import CV.Proofs.CatArbitrary
 /-!
 # C20 (component `cat`): no `Fault.ub` site is reachable for constructed models
 
@@ -112,11 +112,79 @@ theorem C20_constructors {Sym : Type} [DecidableEq Sym] [Inhabited Sym] {B P : N
     obtain ⟨tbl, hl, _⟩ := Lookup.fromContiguous_ok h hP
     exact ⟨_, hl⟩
   · intro lab ext h
-    obtain ⟨md, d1, _⟩ := generic_decoder (B := B) lab h hP
+    obtain ⟨md, d1, _⟩ := generic_decoder (B := B) lab h hP1 hP
     obtain ⟨ml, l1, _⟩ := generic_lookup (B := B) lab h hP
     exact ⟨⟨md, d1⟩, ⟨ml, l1⟩⟩
 
+/-- **No UB for ANY symbol table (D31, D32).**  `IterableEntropyModel` is a safe trait, so the
+    table handed to `from_iterable_entropy_model` / `to_generic_decoder_model` /
+    `to_generic_lookup_decoder_model` can be an arbitrary list of `(symbol, left, probability)`
+    entries of the right type (`Typed B t`: probabilities are `NonZero`, values `< 2^B`) — not
+    starting at zero, with gaps, overlaps, too little or too much mass, repeated symbols, empty.
+    The decoder constructor then either panics cleanly or returns a model whose
+    `quantile_function` returns normally for EVERY `Probability` value; the lookup constructor
+    (with or without debug assertions) either panics cleanly or returns a model whose
+    `quantile_function` returns normally below `2^P` and hits the documented `assert!` above.
+    No `Fault.ub` site is reachable.  (The hash-table encoder's `from_iterable_entropy_model`
+    and lookup are total functions without unsafe code: `NcEnc.fromTable`, `NcEnc.enc`.) -/
+theorem C20_noncontiguous_no_ub_for_any_symbol_table {Sym : Type} [DecidableEq Sym] [Inhabited Sym]
+    {B P : Nat} (hP1 : 1 ≤ P) (hP : P ≤ B) (t : List (Sym × Nat × Nat)) (ht : Typed B t) :
+    ((∃ site, NcDec.fromTable B P t = .error (.panic site)) ∨
+      (∃ m, NcDec.fromTable B P t = .ok m ∧ ∀ q, ∃ r, m.dec B q = .ok r)) ∧
+    (∀ dbg, (∃ site, NcLookup.fromTableWith B P dbg t = .error (.panic site)) ∨
+      (∃ m, NcLookup.fromTableWith B P dbg t = .ok m ∧
+        (∀ q, q < 2 ^ P → ∃ r, m.dec B P q = .ok r) ∧
+        (∀ q, 2 ^ P ≤ q → q < 2 ^ B →
+          m.dec B P q = .error (.panic "lookup.quantile_function.assert")))) := by
+  refine ⟨NcDec.fromTable_arbitrary hP1 hP ht, fun dbg => ?_⟩
+  rcases NcLookup.fromTableWith_arbitrary hP dbg ht with h | ⟨m, hm, hq⟩
+  · exact Or.inl h
+  · refine Or.inr ⟨m, hm, hq, ?_⟩
+    intro q hq1 hq2
+    have hne : B ≠ P := by
+      intro e; subst e; omega
+    simp only [NcLookup.dec]
+    rw [lookupQuantile_out_of_range hne (by omega)]
+
+/-- the same, phrased as "never `Fault.ub`" -/
+theorem C20_noncontiguous_never_ub {Sym : Type} [DecidableEq Sym] [Inhabited Sym]
+    {B P : Nat} (hP1 : 1 ≤ P) (hP : P ≤ B) (t : List (Sym × Nat × Nat)) (ht : Typed B t)
+    (site : String) :
+    NcDec.fromTable B P t ≠ .error (.ub site) ∧
+    (∀ m q, NcDec.fromTable B P t = .ok m → m.dec B q ≠ .error (.ub site)) ∧
+    (∀ dbg, NcLookup.fromTableWith B P dbg t ≠ .error (.ub site)) ∧
+    (∀ dbg m q, q < 2 ^ B → NcLookup.fromTableWith B P dbg t = .ok m →
+      m.dec B P q ≠ .error (.ub site)) := by
+  obtain ⟨hd, hl⟩ := C20_noncontiguous_no_ub_for_any_symbol_table hP1 hP t ht
+  refine ⟨?_, ?_, ?_, ?_⟩
+  · rcases hd with ⟨s, h⟩ | ⟨m, h, _⟩ <;> rw [h] <;> simp
+  · intro m q hm
+    rcases hd with ⟨s, h⟩ | ⟨m', h, hq⟩
+    · rw [h] at hm; simp at hm
+    · rw [h] at hm
+      simp only [Except.ok.injEq] at hm
+      subst hm
+      obtain ⟨r, hr⟩ := hq q
+      rw [hr]; simp
+  · intro dbg
+    rcases hl dbg with ⟨s, h⟩ | ⟨m, h, _⟩ <;> rw [h] <;> simp
+  · intro dbg m q hqB hm
+    rcases hl dbg with ⟨s, h⟩ | ⟨m', h, hlo, hhi⟩
+    · rw [h] at hm; simp at hm
+    · rw [h] at hm
+      simp only [Except.ok.injEq] at hm
+      subst hm
+      rcases Nat.lt_or_ge q (2 ^ P) with hq | hq
+      · obtain ⟨r, hr⟩ := hlo q hq
+        rw [hr]; simp
+      · rw [hhi q hq hqB]; simp
+
 /-! non-vacuity -/
+/-- a lying table (starts at 5, leaves a gap, too little mass) is of the right type -/
+example : Typed 8 [((7 : Nat), (5 : Nat), (3 : Nat)), (9, 20, 1)] := by
+  intro e he
+  simp at he
+  rcases he with rfl | rfl <;> decide
 example : ValidCdf 8 8 [0, 100, 200, 0] :=
   Contiguous.fromNonzeroFixedPoint_valid (B := 8) (P := 8) (probs := [100, 100]) (infer := true)
     (m := { cdf := [0, 100, 200, 0] }) (by decide) (by decide) (by decide) (by decide)
@@ -131,5 +199,7 @@ example : ValidExt 8 [0, 100, 200, 256] := ⟨by decide, by decide, by decide, b
 #print axioms C20_nclookup
 #print axioms C20_uniform
 #print axioms C20_constructors
+#print axioms C20_noncontiguous_no_ub_for_any_symbol_table
+#print axioms C20_noncontiguous_never_ub
 
 end CV.Cat
